@@ -263,8 +263,9 @@ func TestCheck(t *testing.T) {
 			run.Sample(map[string]any{"case": caseID, "transport": transport, "installed": strings.Split(strings.TrimSpace(want.String()), "\n")})
 		}
 	})
+	concurrentPhase(run)
 	run.Assume("for a Get whose network instance is unknown or empty only 'non-OK and no entries' is demanded (the property does not pin the code); for a request with no network instance at all either an empty OK stream or an error is accepted")
-	run.Finish("RIBs over 1-3 NIs built from seeded histories with rich payloads (every generator field independently present), then every (NI selection x AFT type) Get - all, each name, unknown, empty name, unset x ALL + 5 tables + 3 unsupported types - over a direct stream (1 in 8 cases over real gRPC/bufconn); responses compared with the model as keyed multisets with field-by-field payload equality; Get(ALL) vs union of per-table Gets; rib.FromGetResponses round trip. Distinct = by installed contents; non-trivial = non-empty RIB", 50, false)
+	run.Finish("RIBs over 1-3 NIs built from seeded histories with rich payloads (every generator field independently present), then every (NI selection x AFT type) Get - all, each name, unknown, empty name, unset x ALL + 5 tables + 3 unsupported types - over a direct stream (1 in 8 cases over real gRPC/bufconn); responses compared with the model as keyed multisets with field-by-field payload equality; Get(ALL) vs union of per-table Gets; rib.FromGetResponses round trip; plus cases in which 2-3 readers issue Gets WHILE one writer programs the history with the repository's yield points perturbed: every value a concurrent Get reports must be one the key had within the window of that Get, and at quiescence Get(ALL) and every per-table Get equal the model exactly. Distinct = by installed contents; non-trivial = non-empty RIB", 50, false)
 }
 
 // lostFields names the fields present on the want side but not on the got side.
